@@ -165,6 +165,28 @@ def v3_modified_over_complementary_base():
     return out
 
 
+def v3_modified_pairs(tier):
+    """Partial overrides: for pairs of modified metrics every combination of states (absent, X, each
+    value), all other modified metrics absent. quick: the pairs that involve MS (scope interplay
+    with the Privileges Required weight); thorough: all 28 pairs."""
+    mods = T.V3_MODIFIED
+    out, seen = [], set()
+    for i, m1 in enumerate(mods):
+        for m2 in mods[i + 1:]:
+            if tier != "thorough" and "MS" not in (m1, m2):
+                continue
+            for p in parts([m1, m2], {m1: [None] + T.V3[m1], m2: [None] + T.V3[m2]}):
+                if p[0] not in seen:
+                    seen.add(p[0])
+                    out.append(p)
+    return out
+
+
+def v3_all_modified_x():
+    f = "/".join("%s:X" % m for m in T.V3_MODIFIED)
+    return [(fb + "/" + f, dict(db, **dict((m, "X") for m in T.V3_MODIFIED))) for fb, db in v3_base_all()]
+
+
 def v3_blocks(tier, minors=("3.0", "3.1")):
     blocks = []
     ba = v3_base_all()
@@ -179,6 +201,11 @@ def v3_blocks(tier, minors=("3.0", "3.1")):
             blocks.append(Block("v%s.inherit" % fam, fam, ba, v3_temporal_skeleton(12), req))
             blocks.append(Block("v%s.override" % fam, fam, v3_modified_over_complementary_base(),
                                 v3_temporal_skeleton(4), req))
+        one_req = _pick(req, [{"CR": "H", "IR": "L", "AR": "M"}])
+        blocks.append(Block("v%s.partial_override_pairs" % fam, fam, ba, v3_modified_pairs(tier),
+                            one_req if tier != "thorough" else one_req + _pick(req, [{"CR": "L", "IR": "H", "AR": "H"}])))
+        blocks.append(Block("v%s.all_modified_explicit_X" % fam, fam, v3_all_modified_x(),
+                            v3_temporal_skeleton(3), req[::2] if tier != "thorough" else req))
     return blocks
 
 
@@ -275,6 +302,17 @@ def v4_skeleton(group, size="wide"):
 
 V4_G = {"g1": ("AV", "PR", "UI"), "g2": ("AC", "AT"), "g36": ("VC", "VI", "VA", "CR", "IR", "AR"),
         "g4": ("SC", "SI", "SA"), "g5": ("E",)}
+
+
+def v4_xmod_blocks(size=("min", "min")):
+    """The quick short-spelling blocks again, flagged so that the visitor writes every Modified
+    metric that the spelling does not use as an explicit X (see c02.visit)."""
+    out = []
+    for b in v4_blocks("quick", "short", size):
+        blk = Block(b.name.replace("short", "xmod"), "4.0", b.A, b.B, b.C)
+        blk.meta["xmod"] = True
+        out.append(blk)
+    return out
 
 
 def v4_blocks(tier, mode="short", size=None):
